@@ -4,9 +4,13 @@
 //                in a forked child and the way the child ended is the result ("abort").  A constructor that refuses
 //                its arguments calls spqlios_error() = abort(): result "error".
 //   cv_rnx     : rnx_divide_by_m_{ref,avx}; oracle: __float128 evaluation of  res[i] = RN(a[i] * RN(1/m)),
-//                res[i]*m == a[i] exactly when m is a power of two and the result is normal, avx == ref, canaries.
+//                res[i]*m == a[i] exactly when m is a power of two and the exact quotient is 0 or normal, avx == ref,
+//                canaries.  Inputs at the edges of the format relative to m (zeros, subnormals, quotients below
+//                2^-1022, ties, overflow) for both variants with power-of-two m and n >= 8; +-inf / NaN operands are
+//                oracle-only cases (the soft-float of the model has no non-finite operands): avx == ref bitwise.
 //   cv_cplxvec : cplx_fftvec_{add,sub2_to,copy,twiddle,bitwiddle}_fma, cplx_fftvec_{twiddle,bitwiddle}_avx512,
-//                cplx_twiddle_fft_ref, cplx_bitwiddle_fft_ref; oracle: __float128 complex arithmetic.
+//                cplx_twiddle_fft_ref, cplx_bitwiddle_fft_ref; oracle: __float128 complex arithmetic; the AVX-512
+//                kernels additionally bit for bit against their 256-bit twins (findings D8/D9, repaired).
 // Op lines: see lean/Spq/Drv/Cover.lean.  Every destination has a canary zone in front of and behind the cells the
 // kernel may write; pointers are 8-byte aligned but (odd offsets) not 16/32/64-byte aligned.
 #include <fcntl.h>
@@ -178,22 +182,27 @@ void case_kern32(Out& out, Rng& rng, int kind, int how, int avx2, uint32_t m, ui
 }  // namespace
 
 STREAM(cv_conv32) {
+  // every case forks (a refused constructor and every kernel abort the process): the quick tier keeps ~230 cases
+  // (each rule of the constructors at both sides of its threshold, both CPU masks), the thorough tier all of them
   std::vector<uint32_t> ms = {0, 1, 2, 3, 4, 6, 7, 8, 9, 12, 16, 64, 1000, 1024, 65536, 0x80000000u, 0xFFFFFFFFu};
   std::vector<uint32_t> lbs = {0, 1, 18, 19, 32, 33, 52, 53, 64, 4000000000u};
   std::vector<double> ds = {1.0, 2.0, 0.5, 0x1p32, 0x1p-40, 0x1p1023, 0x1p-1022, -4.0, 3.0, 1.5, 0.0, 0.75, 1e10, 0x1p-1074,
                             u2d(0x3FF0000000000001ull), u2d(0x3FF4000000000000ull)};
   if (thorough) { for (uint32_t j = 5; j < 31; j += 3) ms.push_back(1u << j); ms.push_back(24); ms.push_back(4097); }
+  else ms = {0, 1, 3, 4, 7, 8, 16, 1024, 0x80000000u, 0xFFFFFFFFu};
   for (int kind = 0; kind < 3; kind++)
     for (int avx2 = 0; avx2 < 2; avx2++)
       for (uint32_t m : ms) {
         if (kind == 1) { case_init32(out, kind, avx2, m, 0, 1.0); continue; }
         for (uint32_t lb : lbs) {
-          bool sample = thorough || m == 8 || m == 4 || lb == 18 || lb == 19 || lb == 32 || lb == 33 || lb == 52 || lb == 53;
-          if (!sample) continue;
+          if (!thorough) {
+            bool keep = kind == 0 ? (lb == 0 || lb == 32 || lb == 33) : (lb == 18 || lb == 19 || lb == 52 || lb == 53);
+            if (!keep) continue;
+          }
           if (kind == 0) case_init32(out, kind, avx2, m, lb, 1.0);
           else {
             case_init32(out, kind, avx2, m, lb, ds[rng.below(4)]);
-            if (m == 8 || m == 16 || (thorough && m == 4))
+            if (thorough ? (m == 8 || m == 16 || m == 4) : (m == 8 && lb == 18))
               for (double d : ds) case_init32(out, kind, avx2, m, lb, d);
           }
         }
@@ -204,7 +213,7 @@ STREAM(cv_conv32) {
       for (int avx2 = 0; avx2 < 2; avx2++)
         for (uint32_t m : {1u, 2u, 4u, 8u, 16u, 64u}) {
           if (how < 2 && avx2 == 0) continue;  // direct calls do not depend on the CPU mask
-          if (!thorough && (m == 2 || m == 64) && how != 3) continue;
+          if (!thorough && m != 1 && m != 8) continue;
           case_kern32(out, rng, kind, how, avx2, m, kind == 2 ? (avx2 ? 18 : 30) : 20, kind == 2 ? 0x1p10 : 1.0);
         }
   mask(1);
@@ -239,6 +248,31 @@ double gen_coeff(Rng& r, int cls) {
   }
 }
 
+// inputs at the edges of the binary64 format RELATIVE to the divisor m (|m| = 2^j or any finite m): zeros, subnormal
+// inputs, normal inputs whose quotient is subnormal (inexact, and exact ties), quotients at the smallest normals, at
+// the overflow threshold, and ordinary values.  All finite: these cases are compared with the model bit for bit.
+double gen_edge(Rng& r, double m, uint64_t i) {
+  int j = std::isfinite(m) && m != 0 ? ilogb(m) : 0;
+  double frac = 1.0 + (double)(r.next() >> 12) * 0x1p-52;
+  double sg = (r.next() & 1) ? 1.0 : -1.0;
+  switch (i % 14) {
+    case 0: return (r.next() & 1) ? 0.0 : -0.0;
+    case 1: return u2d(r.next() & 0x800FFFFFFFFFFFFFull);                              // any subnormal, either sign
+    case 2: return sg * ldexp((double)(1 + r.below(9)), -1074);                          // k * denorm_min
+    case 3: return sg * ldexp(frac, -1022 - (int)(1 + r.below(54)) + j);                 // quotient subnormal, bits are lost
+    case 4: return sg * ldexp((double)(2 * r.below(1000) + 1), -1075 + j);               // quotient = odd multiple of 2^-1075: a tie
+    case 5: return sg * ldexp(1.0, -1022 + j);                                           // quotient = smallest normal
+    case 6: { double t = ldexp(1.0, -1022 + j); return t == 0 ? sg * 0x1p-1074 : sg * u2d(d2u(t) - 1); }  // … one ulp below it
+    case 7: return sg * ldexp(frac, -1022 + j);                                          // quotient in the lowest binade
+    case 8: return sg * 0x1.fffffffffffffp1023;                                          // DBL_MAX (overflows when |m| < 1)
+    case 9: return sg * ldexp(frac, std::min(1023, 1023 + j));                           // quotient in the top binade
+    case 10: return sg * u2d(0x000FFFFFFFFFFFFFull);                                     // largest subnormal
+    case 11: return sg * 0x1p-1022;                                                      // DBL_MIN
+    case 12: return (double)r.sbits(20);
+    default: return sg * ldexp(frac, (int)r.range(-1000, 1000));
+  }
+}
+
 // __float128 evaluation of the contract: RN(a * RN(1/m)); both roundings are single roundings of exact or
 // 113-bit values (a product of two doubles is exact in binary128; 113 >= 2*53+2 makes the double rounding of the
 // quotient innocuous)
@@ -263,9 +297,10 @@ void case_divm(Out& out, Rng& rng, int variant, uint64_t n, double m, int cls, i
   uint64_t nres = doff + touched + PADMAX;
   std::vector<double> res(nres), abuf(aoff + touched + 1);
   for (auto& x : res) x = gen_coeff(rng, 3);
-  for (auto& x : abuf) x = gen_coeff(rng, cls == 5 ? (int)rng.below(5) : cls);
+  for (auto& x : abuf) x = gen_coeff(rng, cls >= 5 ? (int)rng.below(5) : cls);
   double* a = alias ? res.data() + doff : abuf.data() + aoff;
-  if (alias) for (uint64_t i = 0; i < touched; i++) res[doff + i] = gen_coeff(rng, cls == 5 ? (int)rng.below(5) : cls);
+  if (alias) for (uint64_t i = 0; i < touched; i++) res[doff + i] = gen_coeff(rng, cls >= 5 ? (int)rng.below(5) : cls);
+  if (cls == 6) { uint64_t rot = rng.below(14); for (uint64_t i = 0; i < touched; i++) a[i] = gen_edge(rng, m, i + rot); out.count("divm_edge_inputs"); }
   std::vector<double> res0 = res, a0(a, a + touched);
   fprintf(out.ops, "cv divm %s %" PRIu64 " %" PRIu64 " %d %" PRIu64 " | ", variant ? "avx" : "ref", n, d2u(m), alias, doff);
   put_f64bits(out.ops, res.data(), nres);
@@ -301,13 +336,52 @@ void case_divm(Out& out, Rng& rng, int variant, uint64_t n, double m, int cls, i
         break;
       }
       if (variant && d2u(got) != d2u(viaref[i])) { verdict = fmt("FAIL C07 rnx_divide_by_m_avx differs from _ref: a=%a m=%a avx %a ref %a", a0[i], m, got, viaref[i]); break; }
-      if (is_pow2_double(m) && std::isfinite(got) && (got == 0 ? a0[i] == 0 : fabs(got) >= 0x1p-1022)) {
+      // exact whenever the exact quotient is 0 or normal (a subnormal quotient may round, even up to 2^-1022)
+      if (is_pow2_double(m) && std::isfinite(got) && (a0[i] == 0 || fabsq((q128)a0[i] / (q128)m) >= (q128)0x1p-1022)) {
         if ((q128)got * (q128)m != (q128)a0[i]) { verdict = fmt("FAIL C07 rnx_divide_by_m_%s: a=%a m=%a (a power of two) got %a which is not a/m", variant ? "avx" : "ref", a0[i], m, got); break; }
       }
     }
   }
   if (!is_pow2_double(m)) out.count("divm_m_not_pow2");
   if (overrun) out.count("divm_avx_n_not_multiple_of_8");
+  out.endcase(verdict);
+}
+
+// ±inf and NaN operands (not modelled by the soft-float of the Lean model): oracle-only.  Both variants on the same
+// data: avx == ref bit for bit (the same mulsd/vmulpd per lane), inf stays inf with the sign of a/m, NaN stays NaN,
+// the finite cells are the correctly rounded products, nothing outside res[0,n) changes.
+void case_divm_nonfinite(Out& out, Rng& rng, uint64_t n, double m) {
+  const uint64_t pad = 1 + rng.below(PADMAX);
+  std::vector<double> a(n), r0(pad + n + PADMAX), r1;
+  for (auto& x : r0) x = gen_coeff(rng, 3);
+  uint64_t rot = rng.below(20);
+  for (uint64_t i = 0; i < n; i++) {
+    switch ((i + rot) % 20) {
+      case 0: a[i] = INFINITY; break;
+      case 1: a[i] = -INFINITY; break;
+      case 2: a[i] = u2d(0x7FF8000000000000ull); break;                          // quiet NaN
+      case 3: a[i] = u2d(0xFFF8000000000000ull | (rng.next() >> 13)); break;      // quiet NaN with payload, negative
+      case 4: a[i] = u2d(0x7FF0000000000000ull | (1 + (rng.next() >> 13))); break; // signalling NaN
+      default: a[i] = gen_edge(rng, m, i); break;
+    }
+  }
+  r1 = r0;
+  const std::vector<double> init = r0;
+  rnx_divide_by_m_ref(n, m, r0.data() + pad, a.data());
+  rnx_divide_by_m_avx(n, m, r1.data() + pad, a.data());
+  fprintf(out.ops, "ca nop divm_nonfinite n=%" PRIu64 " m=%" PRIu64, n, d2u(m));
+  fprintf(out.real, "nop");
+  std::string verdict = "ok";
+  for (uint64_t i = 0; i < n && verdict == "ok"; i++) {
+    double g0 = r0[pad + i], g1 = r1[pad + i];
+    if (d2u(g0) != d2u(g1)) verdict = fmt("FAIL C07 rnx_divide_by_m_avx differs from _ref: a=%a (%016" PRIx64 ") m=%a avx %016" PRIx64 " ref %016" PRIx64, a[i], d2u(a[i]), m, d2u(g1), d2u(g0));
+    else if (std::isnan(a[i])) { if (!std::isnan(g0)) verdict = fmt("FAIL C07 rnx_divide_by_m: NaN / %a = %a", m, g0); }
+    else if (std::isinf(a[i])) { if (!(std::isinf(g0) && std::signbit(g0) == (std::signbit(a[i]) != std::signbit(m)))) verdict = fmt("FAIL C07 rnx_divide_by_m: %a / %a = %a", a[i], m, g0); }
+    else if (d2u(g0) != d2u(oracle_div(a[i], m))) verdict = fmt("FAIL C07 rnx_divide_by_m: a=%a m=%a got %a, correctly rounded a*fl(1/m) is %a", a[i], m, g0, oracle_div(a[i], m));
+  }
+  for (uint64_t i = 0; i < r0.size() && verdict == "ok"; i++)
+    if ((i < pad || i >= pad + n) && (d2u(r0[i]) != d2u(init[i]) || d2u(r1[i]) != d2u(init[i]))) verdict = fmt("FAIL C11 rnx_divide_by_m wrote cell %" PRId64 " outside res[0,n)", (int64_t)i - (int64_t)pad);
+  out.count("divm_nonfinite");
   out.endcase(verdict);
 }
 
@@ -340,6 +414,29 @@ STREAM(cv_rnx) {
         case_divm(out, rng, variant, n, m, cls, alias, rng.below(PADMAX + 1), rng.below(4));
       }
     }
+  // power-of-two m, n >= 8 (the 8-wide loop of the AVX kernel), BOTH variants on inputs at the edges of the format
+  // relative to m: zeros, subnormal inputs, quotients below 2^-1022 (inexact and ties), at the smallest normals, at
+  // the overflow threshold — where "divide by 2^j" is not an exponent-field subtraction
+  {
+    static const int js[] = {1, 2, 3, 4, 10, 11, 16, 52, 53, 600, 1022, -1, -2, -10, -52, -600, -1022, 0};
+    std::vector<uint64_t> ens = thorough ? std::vector<uint64_t>{8, 16, 24, 32, 64, 128, 1024} : std::vector<uint64_t>{8, 16, 24, 64};
+    for (uint64_t n : ens)
+      for (int j : js) {
+        if (!thorough && n != 16 && (j != 1 && j != 4 && j != 16 && j != -2 && j != 1022)) continue;
+        double m = ldexp(1.0, j);
+        if ((rng.next() & 3) == 0) m = -m;
+        uint64_t doff = rng.below(PADMAX + 1), aoff = rng.below(4);
+        int alias = (int)(rng.below(3) == 0);
+        for (int variant = 0; variant < 2; variant++) case_divm(out, rng, variant, n, m, 6, alias, doff, aoff);
+        case_divm_nonfinite(out, rng, n, m);
+      }
+    // the same edges with a divisor that is not a power of two, and the ring dimension as divisor
+    for (uint64_t n : {(uint64_t)8, (uint64_t)64})
+      for (double m : {3.0, 0x1.8p-3, (double)n}) {
+        for (int variant = 0; variant < 2; variant++) case_divm(out, rng, variant, n, m, 6, 0, rng.below(PADMAX + 1), rng.below(4));
+        case_divm_nonfinite(out, rng, n, m);
+      }
+  }
   // the dimension is what the library divides by after an inverse FFT: m = n, n a power of two
   for (uint64_t n = 1; n <= (thorough ? 65536u : 4096u); n *= 2)
     for (int variant = 0; variant < 2; variant++) case_divm(out, rng, variant, n, (double)n, 5, 0, rng.below(PADMAX + 1), rng.below(4));
@@ -499,6 +596,15 @@ void case_twiddle(Out& out, Rng& rng, int variant, uint64_t m, int cls, int omki
                     FN, m, i, a.p0()[2 * i], a.p0()[2 * i + 1], b.p0()[2 * i], b.p0()[2 * i + 1], om[2 * (i % 2)], om[2 * (i % 2) + 1],
                     a.p()[2 * i], a.p()[2 * i + 1], b.p()[2 * i], b.p()[2 * i + 1], (double)(a0.re + p.v.re), (double)(a0.im + p.v.im),
                     (double)(a0.re - p.v.re), (double)(a0.im - p.v.im));
+  }
+  if (variant && indomain && verdict == "ok") {
+    // the AVX-512 kernel performs, lane by lane, the operations of its 256-bit twin: bit-for-bit the same result
+    std::vector<double> ta(a.p0(), a.p0() + touched), tb(b.p0(), b.p0() + touched);
+    cplx_fftvec_twiddle_fma(&t, ta.data(), tb.data(), om);
+    for (uint64_t i = 0; i < touched && verdict == "ok"; i++)
+      if (d2u(ta[i]) != d2u(a.p()[i]) || d2u(tb[i]) != d2u(b.p()[i]))
+        verdict = fmt("FAIL C07 cplx_fftvec_twiddle_avx512 differs from cplx_fftvec_twiddle_fma: m=%" PRIu64 " cell %" PRIu64 " avx512 (%a,%a) fma (%a,%a)",
+                      m, i, a.p()[i], b.p()[i], ta[i], tb[i]);
   }
   if (!indomain) { out.count("twiddle_m_outside_domain"); if (verdict == "ok") verdict = "na"; }
   out.count(variant ? "op_twiddle_avx512" : "op_twiddle_fma");
